@@ -18,8 +18,13 @@ Open Scope string_scope.
 
 Fixpoint assoc_c {A} (k : string) (l : list (string * A)) : option A :=
   match l with [] => None | (k', v) :: t => if String.eqb k k' then Some v else assoc_c k t end.
+Fixpoint lookup_m (cls m : string) (mt : list (string * list (string * callee))) : option callee :=
+  match mt with
+  | [] => None
+  | (c, t) :: r => if String.eqb c cls then match assoc_c m t with Some x => Some x | None => lookup_m cls m r end else lookup_m cls m r
+  end.
 Definition mk_fenv (mt : list (string * list (string * callee))) (gt : list (string * callee)) : fenv :=
-  FEnv (fun cls m => match assoc_c cls mt with Some t => assoc_c m t | None => None end) (fun n => assoc_c n gt).
+  FEnv (fun cls m => lookup_m cls m mt) (fun n => assoc_c n gt).
 Definition stream (l : list R) : nat -> R := fun k => nth k l 0%R.
 Definition num (r : R) := VNum (Fin r).
 Definition dict (l : list (string * val)) := VDict (map (fun kv => (VStr (fst kv), snd kv)) l).
